@@ -166,7 +166,9 @@ fn per_line(a: &Args, f: fn(&str, &Value) -> Value) {
 
 fn main() {
     // panics of the code under test are data (caught per case and recorded in the trace), not console noise
-    std::panic::set_hook(Box::new(|_| {}));
+    if std::env::var("VERIF_PANIC_VERBOSE").is_err() {
+        std::panic::set_hook(Box::new(|_| {}));
+    }
     let a = Args::new();
     match a.v.get(1).map(|s| s.as_str()) {
         Some("decode-gen") => decode_gen(&a),
@@ -176,6 +178,7 @@ fn main() {
         Some("cks-run") => per_line(&a, verif_harness::cks::run_case),
         Some("wire-run") => per_line(&a, verif_harness::wire::run_case),
         Some("fields-run") => per_line(&a, verif_harness::fields::run_case),
+        Some("io-run") => per_line(&a, verif_harness::io::run_case),
         Some("ext-run") => per_line(&a, verif_harness::extchain::run_config),
         other => {
             eprintln!("unknown sub command {:?}", other);
